@@ -11,8 +11,8 @@ D = decimal.Decimal
 CASES = {'quick': 8000, 'thorough': 120000}
 SMALL_BLOCKS = 4      # runner: every 4th case keeps its stores in 2..10-token blocks
 GATES = {
-    'quick': {'site:token-twice-in-batch': 50, 'cases_in_small_blocks': 50, 'evaluations': 5000, 'refused_calls_judged': 4500, 'site:attached-node-in-batch': 400, 'site:attached-node-single': 500,
-              'site:index-or-key': 700, 'site:size-mismatch': 200, 'site:raw-text': 300, 'site:cost-combination': 100, 'site:cost-attached': 100,
+    'quick': {'site:token-twice-in-batch': 50, 'site:consumed-node': 30, 'cases_in_small_blocks': 50, 'evaluations': 4500, 'refused_calls_judged': 4500, 'site:attached-node-in-batch': 300, 'site:attached-node-single': 500,
+              'site:index-or-key': 700, 'site:size-mismatch': 200, 'site:raw-text': 200, 'site:cost-combination': 60, 'site:cost-attached': 100,
               'site:arithmetic-attached': 200, 'site:claim-refused': 300, 'site:payee-attached': 50, 'site:store-foreign-token': 100,
               'site:whole-store-child': 50, 'batch_positions_seen': 3},
     'thorough': {'evaluations': 100000, 'batch_positions_seen': 3},
@@ -115,7 +115,7 @@ GARBAGE = ['garbage', '', '"unterminated', '2000-13-45', 'TRUE1', '12x', '#', 'a
 def special_step(col, r, f, text, log):
     """One deliberately invalid call outside the catalog. Returns False to end the history."""
     kind = r.choice(['raw-text', 'raw-text', 'cost-combination', 'cost-attached', 'arithmetic-attached', 'claim-refused', 'claim-refused',
-                     'payee-attached', 'store-foreign-token', 'whole-store-child', 'token-twice-in-batch'])
+                     'payee-attached', 'store-foreign-token', 'whole-store-child', 'token-twice-in-batch', 'consumed-node'])
     donors = []
     call = None
     nodes = list(walker.walk(f))
@@ -232,6 +232,27 @@ def special_step(col, r, f, text, log):
             call = lambda: st.insert_before(toks[a], batch)
         else:
             call = lambda: st.replace(toks[a], next(t for t in batch if t.store_handle is not None))
+    elif kind == 'consumed-node':
+        # a free expression whose tokens were taken over by `a += b` (its store is empty now) is not free any more
+        es = [(p, m) for p, m in nodes if isinstance(m, models.NumberExpr)]
+        if not es:
+            return True
+        p_, e = r.choice(es)
+        a_ = models.NumberExpr.from_value(D(r.randint(1, 9)))
+        b_ = models.NumberExpr.from_value(D(r.randint(1, 9)))
+        a_ += b_
+        how = r.choice(['assign', 'assign', 'operand'])
+        if how == 'assign':
+            desc = f'{p_}.raw_number_add_expr... = <expression already consumed by a += b>'
+            parent = next((m for q, m in nodes if any(c is e for _, c in walker.children(m))), None)
+            attr = next((a for a, d_, k in ops.catalog(type(parent)) if k in ('required_node', 'optional_node') and getattr(parent, a, None) is e), None) if parent is not None else None
+            if attr is None:
+                return True
+            desc = f'<{type(parent).__name__}>.{attr} = <expression already consumed by a += b>'
+            call = lambda: setattr(parent, attr, b_)
+        else:
+            desc = f'{p_} += <expression already consumed by another += >'
+            call = lambda: operator.iadd(e, b_)
     elif kind == 'token-twice-in-batch':
         # the same free token twice in one batch of raw spacing / of a store call: it cannot sit at two places
         sp = [(p, m) for p, m in nodes if hasattr(type(m), 'raw_spacing_before') and m is not f]
@@ -287,6 +308,10 @@ def special_step(col, r, f, text, log):
     if kind == 'store-foreign-token':
         col.ev()
         col.violation('store-foreign-token:accepted', f'{desc} was accepted', wit)
+        return False
+    if kind == 'consumed-node':
+        col.ev()
+        col.violation('consumed-node:accepted', f'{desc} was accepted: the node has no tokens of its own any more', wit)
         return False
     if kind == 'token-twice-in-batch':
         col.ev()
